@@ -33,7 +33,9 @@ def program_strategy(role):
                        st.tuples(st.just('begin')), st.tuples(st.just('abort')), st.tuples(st.just('readcurrent'), name))
     elif role == 'reader':
         op = st.one_of(st.tuples(st.just('read'), name), st.tuples(st.just('read'), name), st.tuples(st.just('readall')),
-                       st.tuples(st.just('begin')), st.tuples(st.just('minimize')), st.tuples(st.just('commit')))
+                       st.tuples(st.just('begin')), st.tuples(st.just('minimize')), st.tuples(st.just('commit')),
+                       # the storage asked directly, through the read paths that do not use the pooled file handles
+                       st.tuples(st.just('probe'), name, st.integers(0, 4)))
     elif role == 'undoer':
         op = st.one_of(st.tuples(st.just('undo'), st.integers(0, 5)), st.tuples(st.just('undo'), st.integers(0, 1)),
                        st.tuples(st.just('read'), name), st.tuples(st.just('begin')))
@@ -120,6 +122,42 @@ class ThreadRun:
         s = self.sched
         self.events.append((s.tick() if s else 0, th, kind, data))
 
+    def probe(self, th, conn, nme, which):
+        """read-only storage calls outside the connection (history, getTid, loadSerial, lastTransaction, undoLog): they
+        must answer whatever another thread is doing; the current tid of an object is never older than a revision this
+        thread has already loaded"""
+        from ZODB.POSException import POSKeyError
+        st_ = self.db.storage
+        o = conn.root()[nme]
+        oid = o._p_oid
+        seen = o._p_serial if o._p_changed is not None else None
+        if which == 0:
+            tid = st_.getTid(oid)
+            if seen is not None and tid < seen:
+                self.log(th, 'probe-bad', 'getTid(%s) answered %r after revision %r had been loaded' % (nme, tid, seen))
+        elif which == 1:
+            h = st_.history(oid, 3)
+            if not h or (seen is not None and h[0]['tid'] < seen):
+                self.log(th, 'probe-bad', 'history(%s) starts at %r after revision %r had been loaded' % (
+                    nme, h and h[0]['tid'], seen))
+        elif which == 2:
+            tid = seen or st_.getTid(oid)
+            try:
+                if not st_.loadSerial(oid, tid):
+                    self.log(th, 'probe-bad', 'loadSerial(%s, %r) answered no data' % (nme, tid))
+            except POSKeyError:
+                pass        # (that revision has been packed away meanwhile)
+        elif which == 3:
+            lt = st_.lastTransaction()
+            if seen is not None and lt < seen:
+                self.log(th, 'probe-bad', 'lastTransaction() answered %r after revision %r had been loaded' % (lt, seen))
+        elif self.db.supportsUndo():
+            from ZODB.POSException import UndoError
+            try:
+                st_.undoLog(0, 3)
+            except UndoError:
+                pass        # (documented refusal while a pack is in progress)
+
     # ---- thread bodies
     def body(self, th, prog, role):
         import transaction
@@ -172,6 +210,8 @@ class ThreadRun:
                             conn.readCurrent(o)
                         elif k == 'minimize':
                             conn.cacheMinimize()
+                        elif k == 'probe':
+                            self.probe(th, conn, op[1], op[2])
                         elif k == 'begin':
                             self.log(th, 'boundary-start')
                             tm.begin()
@@ -276,6 +316,7 @@ class ThreadRun:
             if line_funcs:
                 sched.unwatch_lines(line_funcs)
             self.sched = None
+        s.run_events = self.events
         return s
 
     # ---- final history from the storage
@@ -496,6 +537,10 @@ def tolerate_pack_failed_by_undo(s, run, out):
 
 
 def thread_problems(s, out, prop, allowed=()):
+    bad = [d_ for _, _, k_, d_ in getattr(s, 'run_events', ()) if k_ == 'probe-bad']
+    if bad:
+        out.fail((prop, 'threads', 'storage-probe', 'stale-or-empty-answer'), bad[0])
+        return True
     if s.problem and s.problem[0] == 'deadlock':
         out.fail((prop, 'threads', 'deadlock'), s.problem[1])
         return True
